@@ -1,4 +1,5 @@
 import Arimaa.Lemmas.Frozen
+import Arimaa.Lemmas.GenAgreeMove
 
 /-!
 `PieceBoard::move_piece` and `remove_trapped_pieces` pointwise, their abstraction to
